@@ -282,6 +282,15 @@ func faultClass(e *vlib.Env, decorator bool) vlib.Result {
 				for i, fm := range batch {
 					ms[i] = fm.msg
 				}
+				// whatever the outcome (error, panic), the slice handed over is the caller's: same messages, same order
+				defer func() {
+					for i, fm := range batch {
+						if ms[i] != fm.msg {
+							fail("caller-batch-rewritten", "the slice passed to Publish was rewritten by the decorator: position %d held message %d and now holds %q", i, fm.idx, uuidOf(ms[i]))
+							break
+						}
+					}
+				}()
 				if err := decPub.Publish("t", ms...); err != nil {
 					result = "error:" + err.Error()
 				} else {
